@@ -619,8 +619,13 @@ def check_book_table(chk):
     spec = importlib.util.spec_from_file_location("c02_ops_translator", TRANSLATOR)
     ops = importlib.util.module_from_spec(spec)
     spec.loader.exec_module(ops)
-    binary, unary = ops.read_pest()
-    levels, infix_fn, unary_fn, index_fn = ops.read_parser(binary, unary)
+    try:
+        binary, unary = ops.read_pest()
+        levels, infix_fn, unary_fn, index_fn = ops.read_parser(binary, unary)
+    except SystemExit as e:      # the translator fails closed with sys.exit: that is a broken tie, not the end of the check
+        chk.violation("tie:translator:alias-table", "translate/ops.py no longer recognises xray.pest / parser.rs (the alias table cannot be extracted); "
+                      "the other parts of this check look for a concrete failing text", {"translator": TRANSLATOR, "exit": str(e.code)}, no_input=True)
+        return
     parser_bin = {tok: infix_fn[rule] for rule, tok in binary}
     parser_un = {tok: unary_fn[rule] for rule, tok in unary}
     book_bin, book_un, book_index = cs.book_alias_table(REPO)
